@@ -48,7 +48,7 @@ func fieldOfLoad(v ssa.Value, spill *ssa.Alloc, param *ssa.Parameter) (string, b
 }
 
 func checkC11(c *Ctx) {
-	c.Rule("EMPH-S", "Saved-index staleness: openersBottom holds indices into the delimiter stack. Inside processEmphasis, after a deleteDelimiterStack call whose low bound is not the value all saved bounds were last clamped to, no element of openersBottom is read before every element has been re-based (a loop storing into openersBottom).")
+	c.Rule("EMPH-S", "Saved-index staleness: openersBottom holds indices into the delimiter stack. A forward dataflow over processEmphasis maintains the invariant \"every saved bound <= V\" for an SSA value V (established by a loop, or a helper, that stores V into every element; kept by storing V into one element, by V growing, and across loop-carried variables). A deleteDelimiterStack call whose low bound is not known to be >= V breaks it, and no element of openersBottom may be read before the bounds have been re-based.")
 	c.Assume("flanking classification, the rule-of-3 predicate itself, matching order and tree surgery (the algorithm proper) are value-level and not decided")
 	ruleEmphKX(c)
 	ruleEmphS(c)
@@ -159,12 +159,31 @@ func ruleEmphS(c *Ctx) {
 		for _, ins := range b.Instrs {
 			switch x := ins.(type) {
 			case *ssa.Call:
+				if g := x.Call.StaticCallee(); g != nil && g != del && p.InModule(g) {
+					if pi, qi, ok := clampHelper(g); ok && pi < len(x.Call.Args) && qi < len(x.Call.Args) {
+						a := x.Call.Args[pi]
+						if sl, isSl := a.(*ssa.Slice); isSl {
+							a = sl.X
+						}
+						if a == arr {
+							s = emphState{kind: 1, v: x.Call.Args[qi]}
+							continue
+						}
+					}
+				}
 				if x.Call.StaticCallee() == del {
+					// entries from L on move down; a bound <= L still means what it meant
 					L := x.Call.Args[1]
-					if s.kind == 1 && sameValueDeep(L, s.v) {
+					if s.kind == 1 && geqValue(L, s.v) {
 						continue
 					}
 					s = emphState{kind: 2, cause: x}
+				}
+			case *ssa.Store:
+				// a single bound is set (outside the re-basing loops): the invariant "every bound <= V" survives
+				// only if the stored value is V itself
+				if _, ok := isArrElem(x.Addr); ok && !clampBlocks[b] && s.kind == 1 && !sameValueDeep(x.Val, s.v) {
+					s = emphState{}
 				}
 			case *ssa.UnOp:
 				if x.Op == token.MUL {
@@ -208,10 +227,8 @@ func ruleEmphS(c *Ctx) {
 				same = false
 			}
 		}
-		if same {
-			return states[0]
-		}
-		// phi mapping
+		// phi mapping first: a loop-carried variable must be named by its phi from the first visit on, otherwise the
+		// value seen on the entry edge is carried round the loop and no longer matches the phi's back edge
 		for _, ins := range b.Instrs {
 			ph, ok := ins.(*ssa.Phi)
 			if !ok {
@@ -222,13 +239,17 @@ func ruleEmphS(c *Ctx) {
 				if !visited[pr] {
 					continue
 				}
-				if !sameValueDeep(ph.Edges[i], outs[pr].v) {
+				// "every bound <= V" implies "every bound <= V + c" for c >= 0
+				if !geqValue(ph.Edges[i], outs[pr].v) {
 					match = false
 				}
 			}
 			if match {
 				return emphState{kind: 1, v: ph}
 			}
+		}
+		if same {
+			return states[0]
 		}
 		return emphState{}
 	}
@@ -467,4 +488,78 @@ func maskRequiredForTrue(pred *ssa.Function, load ssa.Value, fm string) bool {
 		visit(r.Results[0], r.Block(), map[ssa.Value]bool{})
 	}
 	return found && okAll
+}
+
+// clampHelper: g stores its int parameter q into every element of its array-pointer/slice parameter p inside a loop over
+// a loop counter (a re-basing helper such as clampOpenersBottom(&bounds, limit)). Returns the parameter positions.
+func clampHelper(g *ssa.Function) (pi, qi int, ok bool) {
+	if g == nil || g.Blocks == nil {
+		return 0, 0, false
+	}
+	paramIdx := func(v ssa.Value) int {
+		for i, q := range g.Params {
+			if ssa.Value(q) == v {
+				return i
+			}
+		}
+		return -1
+	}
+	found := false
+	eachInstr(g, func(in ssa.Instruction) {
+		st, isSt := in.(*ssa.Store)
+		if !isSt || found {
+			return
+		}
+		ia, isIA := st.Addr.(*ssa.IndexAddr)
+		if !isIA {
+			return
+		}
+		p0 := paramIdx(ia.X)
+		q0 := paramIdx(st.Val)
+		if p0 < 0 || q0 < 0 {
+			return
+		}
+		// index is (derived from) a loop counter
+		isCounter := false
+		seen := map[ssa.Value]bool{}
+		var w func(v ssa.Value)
+		w = func(v ssa.Value) {
+			if seen[v] {
+				return
+			}
+			seen[v] = true
+			switch x := v.(type) {
+			case *ssa.Phi:
+				for _, e := range x.Edges {
+					if bo, ok := e.(*ssa.BinOp); ok && (bo.X == ssa.Value(x) || bo.Y == ssa.Value(x)) {
+						isCounter = true
+					}
+				}
+			case *ssa.BinOp:
+				w(x.X)
+				w(x.Y)
+			}
+		}
+		w(ia.Index)
+		if isCounter {
+			pi, qi, found = p0, q0, true
+		}
+	})
+	return pi, qi, found
+}
+
+// geqValue: a is structurally b, or b plus a non-negative constant.
+func geqValue(a, b ssa.Value) bool {
+	if sameValueDeep(a, b) {
+		return true
+	}
+	if bo, ok := a.(*ssa.BinOp); ok && bo.Op == token.ADD {
+		if k, isC := constInt(bo.Y); isC && k >= 0 && sameValueDeep(bo.X, b) {
+			return true
+		}
+		if k, isC := constInt(bo.X); isC && k >= 0 && sameValueDeep(bo.Y, b) {
+			return true
+		}
+	}
+	return false
 }
